@@ -22,7 +22,7 @@ func init() {
 			"the Set(quantity) lies on every path from the debit to any use of the entry. R5: an account obtained from LoadAccount and modified is handed to SaveAccount on every path to a success return. R6: after the sender's debit every path to a success " +
 			"return passes a local credit of the destination, the construction of an output transfer, or (ESDTTransfer only) the edge `caller is not a contract`. R7: every debit below a transfer entry point is exact — the subtraction is guarded by holding >= " +
 			"quantity evaluated on the value subtracted from (an overdrawn NFT entry is deleted, not stored negative, so the excess would be created). R8: tokens are delivered once — for every pair of a local credit of a non-sender account and a message " +
-			"that carries tokens on under the function's own name, the guards of the one contradict the guards of the other (destination account present / same shard vs absent / other shard) or no control-flow path joins them. R9 (shared with C10-R5): the continuing side of the transfers has no error exit decided by the content of a forwarded argument. R10 (shared with C04-R1): every credit below the transfers passes the freeze/pause gate bound to the input's own return-after-error flag, so a bounced transfer is credited back. Does NOT decide: the sums, delivery/refund histories, undelivered messages.",
+			"that carries tokens on under the function's own name, the guards of the one contradict the guards of the other (destination account present / same shard vs absent / other shard) or no control-flow path joins them. R9 (shared with C10-R5): the continuing side of the transfers has no error exit decided by the content of a forwarded argument. R10 (shared with C04-R1): every credit below the transfers passes the freeze/pause gate bound to the input's own return-after-error flag, so a bounced transfer is credited back. R11: below the transfer functions the pause handler is consulted only when the input's return-after-error flag is unset (a refund is never refused for a pause). R12: a reader of token entries hands back an empty holding only when nothing is stored under the key; a message is built in memory the call owns. Does NOT decide: the sums, delivery/refund histories, undelivered messages.",
 		Trusted: []string{"math/big semantics", "A-deps", "A-protomsg"},
 		Rules:   []func(*Ctx){c01r1, c01r2, c01r3, c01r4, c01r5, c01r6, c01r7, c01r8, c01r9, c01r10, c01r11, c01r12},
 	})
